@@ -14,7 +14,8 @@ DECIDES = ('(a) ScramblerLFSR: as affine maps over the 16 state bits, `value` eq
            'keystream byte i under enable & ~ctrl[i] and passed through otherwise; ctrl/valid/ready pass through; '
            'Descrambler is the same datapath; (c) physical layer: transmit scrambler built with 0xFFFF, descrambler default '
            '0xFFFF, scrambler.hold <- tx_ctc.sending_skip, both enables from enable_scrambling. Equal maps + equal start '
-           'state + advance only on transferred words give descramble(scramble(x)) = x. ')
+           'state + advance only on transferred words give descramble(scramble(x)) = x. '
+           'The COM restart is conditioned on the transfer of the COM word (source.ready), so a stalled COM word is transferred as an unstalled one. ')
 NOT_DECIDED = 'alignment of the two LFSRs across the real link (depends on COM placement in the traffic).'
 POLY = 0x0039
 COM = 0xBC
